@@ -284,3 +284,38 @@ func (c *Cond) Broadcast() {
 	c.waiters = nil
 	c.g.Unlock()
 }
+
+// Pool replaces sync.Pool with a deterministic LIFO free list: the real pool's
+// per-P caches and GC-driven clearing cannot be seeded and would make the
+// identity of recycled buffers differ between a run and its replay.
+type Pool struct {
+	New   func() any
+	g     sync.Mutex
+	items []any
+}
+
+func (p *Pool) Get() any {
+	p.g.Lock()
+	if n := len(p.items); n > 0 {
+		x := p.items[n-1]
+		p.items = p.items[:n-1]
+		p.g.Unlock()
+		return x
+	}
+	p.g.Unlock()
+	if p.New != nil {
+		return p.New()
+	}
+	return nil
+}
+
+func (p *Pool) Put(x any) {
+	if x == nil {
+		return
+	}
+	p.g.Lock()
+	if len(p.items) < 64 {
+		p.items = append(p.items, x)
+	}
+	p.g.Unlock()
+}
